@@ -5,7 +5,7 @@ import numpy as np
 
 RULE = ("for poly_trend in {1,2} x n_offsets in {0,1}: the well-formed prior is accepted with parameters in the order nonlinear, linear, offsets; "
         "then one defect at a time on each parameter: omitted / without unit / unit of the wrong dimension / linear prior that is not Normal "
-        "(Uniform, StudentT, HalfNormal, LogNormal, TruncatedNormal, SkewNormal) / not a random variable; data/prior count mismatches with 1..3 sources; sources of unsupported form; TheJoker "
+        "(Uniform - in km/s, m/s and cm/s -, StudentT, HalfNormal, LogNormal, TruncatedNormal, SkewNormal) / not a random variable; data/prior count mismatches with 1..3 sources; sources of unsupported form; TheJoker "
         "argument checks; non-trivial = a defective input")
 EXHAUSTIVE = True
 BOUNDED = []
@@ -25,7 +25,9 @@ def cases(tier, seed):
             if (pt_, no) in ((3, 1), (4, 0)) and par[0] != "v":
                 continue
             if par in lin + off:
-                defects += ["uniform", "studentt", "deterministic", "halfnormal", "lognormal", "truncatednormal", "skewnormal"]
+                defects += ["uniform", "studentt", "deterministic", "halfnormal", "lognormal", "truncatednormal", "skewnormal",
+                            # the same non-Normal prior declared in other equivalent units (one of them is the unit the validation itself compares with)
+                            "uniform@m/s", "uniform@cm/s"]
             if tier == "quick" and (pt_, no) != (2, 1) and par in ("e", "M0", "s"):
                 continue
             for d in defects:
@@ -73,7 +75,7 @@ def _pars(pt_, no, defect, par):
                 v = angle(name)
             elif name == "s":
                 v = pm.Lognormal("s", 0, 0.5)
-            elif d == "uniform":
+            elif d == "uniform" or (d or "").startswith("uniform@"):
                 v = pm.Uniform(name, -5, 5)
             elif d == "studentt":
                 v = pm.StudentT(name, nu=3, mu=0, sigma=2)
@@ -92,6 +94,9 @@ def _pars(pt_, no, defect, par):
                 v = pm.Normal(name, 0.0, 10.0)
             if d in ("next-order", "previous-order"):
                 v = xu.with_unit(v, u.km / u.s / u.day ** (int(name[1:]) + (1 if d == "next-order" else -1)))
+            elif (d or "").startswith("uniform@"):
+                order = int(name[1:]) if (name[0] == "v" and name[1:].isdigit()) else 0
+                v = xu.with_unit(v, u.Unit(d.split("@")[1]) / u.day ** order)
             elif d != "no-unit":
                 v = xu.with_unit(v, wrong.get(name, u.day) if d == "wrong-dim" else unit)
             if name.startswith("dv0_"):
